@@ -259,6 +259,7 @@ fn main() {
          (fresh; full screen + 100 lines scrollback + margins; one printed char; cursor in the last row of a 90-line scrollback), ANSI emulation 80x25, followed by a printable, CR LF, CUU, CUF and a printable. \
          big_pairs (exhaustive): 54 state-setting sequences carrying 2^16 / 2^31-49 / 2^31-1 (margins, scroll regions, origin mode, far tab stop, far cursor, saved cursor, font selection) x {fresh, 90-line scrollback} x \
          63 finals x 8 intermediates x parameter {none, 1, 25, 2^31-1}, then the same tail plus restore-cursor. \
+         exhaustive_3_tokens: every sequence of 1..=3 tokens of the ~90-token control-function alphabet (the one C09 enumerates) on 80x25 and 2x2, ANSI emulation. \
          Non-trivial: the stream contains >= 2 control lead-in bytes of its emulation AND touched the screen (row allocated, cursor moved or height grew); distinct by hash of (emulation,size,shape,bytes).",
     );
     eng.assume("built with overflow checks and debug assertions ON at opt-level 2 (profile `checked`): panics that only a debug build of a front end would hit count as well");
@@ -270,6 +271,34 @@ fn main() {
     let setters = big_setters();
     let total = setters.len() as u64 * 4 * 2 * 8 * 63;
     eng.enumerated_with_class(PartCfg::new("big_pairs", 0, 0).isolated().timeout_ms(5_000).heapcap_is_violation(false).exhaustive(true), total, move |i| pair_case(&setters, i), check, classify);
+    // every 1-, 2- and 3-token sequence over the control-function alphabet that C09 enumerates (cursor, tab, margin, scroll, erase,
+    // save/restore, reset functions with boundary parameters, single-edge margin updates with 0, key emulation): crashes that need
+    // two state-setting steps and a trigger
+    let alpha = stream::alphabet();
+    let n = alpha.len() as u64;
+    eng.extra("alphabet_tokens", icyv::serde_json::json!(n));
+    let sizes: [(u8, u8); 2] = [(80, 25), (2, 2)];
+    let per = n + n * n + n * n * n;
+    eng.enumerated_with_class(
+        PartCfg::new("exhaustive_3_tokens", 0, 0).isolated().timeout_ms(20_000).heapcap_is_violation(false).exhaustive(true),
+        per * sizes.len() as u64,
+        move |idx| {
+            let (w, h) = sizes[(idx / per) as usize];
+            let k = idx % per;
+            let toks: Vec<stream::Tok> = if k < n {
+                vec![alpha[k as usize].clone()]
+            } else if k < n + n * n {
+                let k = k - n;
+                vec![alpha[(k / n) as usize].clone(), alpha[(k % n) as usize].clone()]
+            } else {
+                let k = k - n - n * n;
+                vec![alpha[(k / (n * n)) as usize].clone(), alpha[((k / n) % n) as usize].clone(), alpha[(k % n) as usize].clone()]
+            };
+            Case { emu: 0, w, h, shape: (k % 3) as u8, data: Bytes(stream::render(&toks, w as i32, h as i32, 9999)) }
+        },
+        check,
+        classify,
+    );
     eng.generated_min(PartCfg::new("streams", 900_000, 12_000_000).isolated().timeout_ms(30_000).heapcap_is_violation(false), || cases(40), check, classify, minimize);
     // the same grammar with the symbolic maximum rendered as 2^31-1 (short streams; a case that runs away is cut off after 3 s and is inconclusive)
     eng.generated_min(PartCfg::new("big_streams", 200_000, 3_000_000).isolated().timeout_ms(3_000).heapcap_is_violation(false), || cases_capped(12, 2_147_483_647), check, classify, minimize);
